@@ -556,8 +556,10 @@ def box_deep(N_lo, N_hi, tier):
                 for traj in ("maximum", "revolve"):
                     out.append(Config("TwoLevel", (period, bs, "RAM", traj),
                                       n, 2))
-        for ram in (1, 2, 3):
-            for cv in cvs:
+        for ram in (1, 2, 3, 7, 15):
+            if ram > 3 and n < 2 * ram:
+                continue
+            for cv in (cvs if ram <= 3 else cvs[:1]):
                 for c in ("Revolve", "DiskRevolve", "PeriodicDiskRevolve"):
                     out.append(Config(c, (ram,) + tuple(cv), n))
                 for disk in ((1, 3) if quick else (0, 1, 2, 3)):
